@@ -33,6 +33,7 @@ type c06Case struct {
 	UnkBody  int      `json:"unkbody,omitempty"`  // body of the unknown-type packet: 0 = 8 bytes, 1 = empty (packet length exactly 64), 2 = 1 KiB; 3 = empty body AND foreign set id
 	VolCore  int      `json:"volcore"`            // 0 full core packets, 1 creator only, 2 creator+main, 3 core packets after the recovery packets
 	Subdir   bool     `json:"subdir,omitempty"`   // protected files live in sub-directories
+	LongName int      `json:"longname,omitempty"` // protected file 1 lives N directories deep (40-byte components): the stored relative name exceeds 255 bytes for N>=7
 	RecvRev  bool     `json:"recvrev,omitempty"`  // recovery packets in descending order, duplicated
 	Damage   string   `json:"damage"`             // none, del0, del1, ovw0, ovw1
 	G        int      `json:"g,omitempty"`
@@ -133,6 +134,10 @@ func c06Alternatives(allPerms bool) []func(*c06Case) {
 		alts = append(alts, func(c *c06Case) { c.VolCore = vc })
 	}
 	alts = append(alts, func(c *c06Case) { c.Subdir = true })
+	for _, ln := range []int{3, 6, 7, 12, 24} {
+		ln := ln
+		alts = append(alts, func(c *c06Case) { c.LongName = ln })
+	}
 	alts = append(alts, func(c *c06Case) { c.RecvRev = true })
 	for _, dm := range []string{"none", "del1", "ovw0", "ovw1", "del01"} {
 		dm := dm
@@ -207,6 +212,13 @@ func c06Run(ci interface{}, r *core.Rec) {
 	names := []string{"f0", "f1"}
 	if c.Subdir {
 		names = []string{"sub/f0", "sub/deeper/f 1"}
+	}
+	if c.LongName > 0 {
+		n := ""
+		for k := 0; k < c.LongName; k++ {
+			n += fmt.Sprintf("dir%02d-", k) + "0123456789abcdefghijklmnopqrstuvwxyz"[:33] + "/"
+		}
+		names = []string{names[0], n + "f1"}
 	}
 	sizes := []int{11, 6}
 	const slice = 4
@@ -462,7 +474,7 @@ func init() {
 	core.Register(&core.Prop{
 		ID:    "C06",
 		Level: "model_checking",
-		Rule: "bounded-exhaustive layouts from the reference writer, on real directories through the exported API: the default layout, EVERY single deviation (all 719 packet-group permutations of the index, duplication of each packet, every exponent subset of {0,1,2,5,9,100,2000} of size<=4, 1-3 volume files, 6 volume-name families incl. spaces and glob metacharacters, 9 base names incl. [ ] * ? \\ and non-ASCII, a foreign-set packet at each position, an unknown-type packet at each position (8-byte, empty and 1 KiB bodies; empty-bodied foreign-set packet), volumes with full / creator-only / creator+main / trailing core packets, sub-directory file names, reversed+duplicated recovery packets, 6 damage patterns, goroutines), and all PAIRS of deviations (quick: reduced permutation list; thorough: all permutations, plus all triples over the reduced list). " +
+		Rule: "bounded-exhaustive layouts from the reference writer, on real directories through the exported API: the default layout, EVERY single deviation (all 719 packet-group permutations of the index, duplication of each packet, every exponent subset of {0,1,2,5,9,100,2000} of size<=4, 1-3 volume files, 6 volume-name families incl. spaces and glob metacharacters, 9 base names incl. [ ] * ? \\ and non-ASCII, a foreign-set packet at each position, an unknown-type packet at each position (8-byte, empty and 1 KiB bodies; empty-bodied foreign-set packet), volumes with full / creator-only / creator+main / trailing core packets, sub-directory file names, names nested 3-24 directories deep (relative names of 120-980 bytes with 40-byte components), reversed+duplicated recovery packets, 6 damage patterns, goroutines), and all PAIRS of deviations (quick: reduced permutation list; thorough: all permutations, plus all triples over the reduced list). " +
 			"Oracle: counts equal gopar's own canonical set for the same data and damage and equal the reference (all intact blocks found); Repair succeeds whenever every K-subset of the stored exponents is non-singular by the reference. non-trivial = damaged scenario repaired",
 		Assumptions: []string{"layouts stay inside the statement's envelope: index without recovery packets and starting with an own-set packet, creator packet in every file, ASCII file names, no non-recovery-set files"},
 		NewCase:     func() interface{} { c := c06Default(); return &c },
